@@ -1,9 +1,9 @@
 (** C01 obligation over the class table REGENERATED from /repo (finite, kernel-evaluated): every concrete class satisfies the
-    class condition of the round-trip theorem, except MAIL / MFINFO / STOCKINFO (groom-ungroom rename: outside this theorem,
-    covered by the correspondence run) and TAX1099INT_V100 (recorded finding of C13: repeated children not adjacent). *)
+    class condition of the round-trip theorem, (including MAIL / MFINFO / STOCKINFO, whose groom-ungroom rename the theorem covers),
+    except TAX1099INT_V100 (recorded finding of C13: repeated children not adjacent). *)
 From OfxV Require Import Base.Prelude Model.Schema Model.SchemaWf Proofs.RoundTrip6 Gen.SchemaGen Gen.SchemaS.
 Local Open Scope string_scope.
 Theorem rt_classes_generated :
-  map ci_name (filter (fun c => concrete c && negb (rt_class_okb c)) S) = ["MAIL"; "MFINFO"; "STOCKINFO"; "TAX1099INT_V100"].
+  map ci_name (filter (fun c => concrete c && negb (rt_class_okb c)) S) = ["TAX1099INT_V100"].
 Proof. vm_compute. reflexivity. Qed.
 Print Assumptions rt_classes_generated.
